@@ -1127,6 +1127,85 @@ theorem longmul_ntt_end_to_end (n k : Nat) (m : Ymq.Crt.Mzp) (hm : Ymq.Crt.new n
   rw [if_pos hp28]
   exact ez
 
+/-- **`Poly::middlemul`, production branch (`|q| = 2^e ≥ FFT_THRESHOLD`), end to end in one statement.** For
+the Montgomery operations, a ring context with NTT (`c.mzp = some k`, `e + 1 ≤ k ≤ 31`, the `MultiZmodP` of
+`new(zn, k)`) and reduced operands with `|p| = 2|q| - 1`: the model of `Poly::middlemul` reaches no panic
+site, its output is the (first `|q|` entries of the) output of the word-level model of
+`convolve_modn_ntt(mzp, 2|q|, p, q, z, |q| - 1)`, and read out of Montgomery form it is the middle slice
+`(P·Q).coeff(|q| - 1 + i)`. -/
+theorem middlemul_ntt_end_to_end (n k : Nat) (m : Ymq.Crt.Mzp) (hm : Ymq.Crt.new n k = some m) (hn : 0 < n)
+    (hbits : Ymq.Checked.bitlen n ≤ 512) (hk31 : k ≤ 31) (kw rinv : Nat)
+    (hR : 2 ^ (64 * kw) * rinv % n = 1 % n) (c : Ctx) (hc : c.mzp = some k) (e : Nat) (p q : List Nat)
+    (hq : q.length = 2 ^ e) (hq28 : Ymq.Gen.Params.FFT_THRESHOLD ≤ q.length) (hp : p.length = 2 * q.length - 1)
+    (he : e + 1 ≤ k) (hpn : ∀ v ∈ p, v < n) (hqn : ∀ v ∈ q, v < n) :
+    ∃ rts w, Ymq.Crt.rootsPacked m = some rts ∧
+      Ymq.Crt.convolveNtt m rts rinv (2 * q.length) (p.map (Ymq.Limbs.ofNat 8)) (q.map (Ymq.Limbs.ofNat 8))
+        q.length (q.length - 1) = some w ∧
+      middlemulPub c (montOps n kw rinv) p q = some (w.take q.length) ∧ (w.take q.length).length = q.length ∧
+      ∀ i, i < q.length → mphi n rinv ((w.take q.length).getD i 0) =
+        (poly (p.map (mphi n rinv)) * poly (q.map (mphi n rinv))).coeff (q.length - 1 + i) := by
+  have h28 : 28 ≤ q.length := hq28
+  have hh := (montOps_homC n kw rinv hn hR).toHomE.toHom
+  obtain ⟨rts, e1, e2⟩ := fftMidmul_refines n k m hm hn hbits hk31 kw rinv q.length e p q hq hp he hpn hqn
+  have hpow : isPow2 q.length = true := by
+    unfold isPow2; rw [hq, Nat.log2_two_pow]; simp
+  have h2k : 2 * q.length ≤ 2 ^ k := by
+    calc 2 * q.length = 2 ^ (e + 1) := by rw [hq, pow_succ]; ring
+      _ ≤ 2 ^ k := Nat.pow_le_pow_right (by decide) he
+  obtain ⟨z, ez, lz, hz⟩ := mm_pow2 hh k q.length p q hpow hp le_rfl h2k
+  obtain ⟨w, ew⟩ : ∃ w, fftMidmul k (montOps n kw rinv) q.length p q = some w := by
+    cases hf : fftMidmul k (montOps n kw rinv) q.length p q with
+    | none => rw [hf] at ez; simp at ez
+    | some w => exact ⟨w, rfl⟩
+  have hzw : z = w.take q.length := by
+    rw [ew] at ez; simpa using ez.symm
+  refine ⟨rts, w, e1, by rw [e2, ew], ?_, by rw [← hzw]; exact lz, by rw [← hzw]; exact hz⟩
+  unfold middlemulPub
+  rw [if_neg (by omega), if_neg (by omega)]
+  unfold FUEL middlemul
+  rw [if_neg (by omega), if_neg (by omega), if_neg (by omega), if_neg (by omega), if_neg (by omega)]
+  have hmode : mmMode c q.length = (1, k) := by
+    unfold mmMode
+    rw [hc]
+    simp only
+    rw [if_pos hq28, if_pos hpow]
+  rw [hmode]
+  simp only
+  rw [ew]
+  rfl
+
+/-- the public routines on the operations the code runs: `Poly::div_mod_xn` under the Montgomery operations
+(`q·z ≡ p (mod x^len)` read out of Montgomery form), any ring context -/
+theorem div_mod_xn_mont (n kw rinv : Nat) (hn : 0 < n) (hR : 2 ^ (64 * kw) * rinv % n = 1 % n) (c : Ctx)
+    (p q : List Nat) (hl : p.length = q.length) (h1 : 1 ≤ q.length) (h62 : q.length ≤ 2 ^ 62)
+    (hfit : Fits c (q.length - q.length / 2))
+    (hinv : ∃ i, (montOps n kw rinv).inv (q.getD 0 0) = some i) :
+    ∃ z, divModXnPub c (montOps n kw rinv) p q = some z ∧ z.length = q.length ∧
+      ∀ k, k < q.length →
+        (poly (q.map (mphi n rinv)) * poly (z.map (mphi n rinv))).coeff k = (poly (p.map (mphi n rinv))).coeff k :=
+  div_mod_xn_spec (montOps_homC n kw rinv hn hR).toHomE c p q hl h1 h62 hfit hinv
+
+/-- `Poly::multi_eval` under the Montgomery operations: the values of `p` at all points -/
+theorem multi_eval_mont (n kw rinv : Nat) (hn : 1 < n) (hR : 2 ^ (64 * kw) * rinv % n = 1 % n) (c : Ctx)
+    (p a : List Nat) (hp1 : 1 ≤ p.length) (ha1 : 1 ≤ a.length) (h61 : max a.length (p.length - 1) ≤ 2 ^ 60)
+    (hfit : Fits c (2 * max a.length (p.length - 1)))
+    (hinv : ∃ i, (montOps n kw rinv).inv (montOps n kw rinv).one = some i) :
+    ∃ v, multiEval c (montOps n kw rinv) p a = some v ∧ v.length = a.length ∧
+      ∀ j, j < a.length →
+        mphi n rinv (v.getD j 0) = (poly (p.map (mphi n rinv))).eval (mphi n rinv (a.getD j 0)) := by
+  haveI : Fact (1 < n) := ⟨hn⟩
+  exact multi_eval_spec (montOps_homC n kw rinv (by omega) hR).toHomE c p a hp1 ha1 h61 hfit hinv
+
+/-- `Poly::roots_eval` under the Montgomery operations: `∏_i (b_j - a_i)`, both branches -/
+theorem roots_eval_mont (n kw rinv : Nat) (hn : 1 < n) (hR : 2 ^ (64 * kw) * rinv % n = 1 % n)
+    (a b : List Nat) (ha1 : 1 ≤ a.length) (hb2 : 2 ≤ b.length) (hb61 : Ymq.Checked.bitlen (b.length - 1) ≤ 61)
+    (hinv : ∃ i, (montOps n kw rinv).inv (montOps n kw rinv).one = some i) :
+    ∃ vals, rootsEval (montOps n kw rinv) a b = some vals ∧ vals.length = b.length ∧
+      ∀ j, j < b.length →
+        mphi n rinv (vals.getD j 0) = (a.map fun r => mphi n rinv (b.getD j 0) - mphi n rinv r).prod := by
+  haveI : Fact (1 < n) := ⟨hn⟩
+  exact roots_eval_spec (montOps_homC n kw rinv (by omega) hR) a b ha1 hb2 hb61 hinv
+
 end Production
 
 end Ymq.C10
